@@ -471,12 +471,27 @@ def corpus_histories():
     return out
 
 
+def paging_grid(rows_for, hs, schemas=("vs_script", "vs_multi", "vs_table")):
+    """directed boundary histories: a menu of exactly k candidates (k = 1 .. 2*page_size+2), the highlight moved to every
+    row r of the first page by Down keys, then Page_Down / Page_Up / API paging — every (k, r) alignment of a short last page"""
+    for sid in schemas:
+        ps = SCHEMAS[sid]["pageSize"]
+        for k in range(1, 2 * ps + 3):
+            tid = "p_%s_%d" % (sid, k)
+            rows_for[tid] = [("a", "T%d" % j, "", "") for j in range(k)]
+            for r in range(0, ps):
+                down = ["key %d 0" % XK["Down"]] * r
+                hs.append((sid, ["key 97 0"] + down + ["key %d 0" % XK["Next"], "key %d 0" % XK["Next"], "key %d 0" % XK["Prior"],
+                                                        "page +", "page +", "page -", "highlight_page %d" % r, "key %d 0" % XK["Next"]], tid))
+
+
 def standard_histories(c, n_hist, n_ops, profile="mixed", schemas=None):
-    """corpus first, then seeded generation; returns (histories, rows_for)"""
+    """corpus first, then directed boundary grids, then seeded generation; returns (histories, rows_for)"""
     rows_for, hs = {}, []
     for k, (sid, ops, rows, f) in enumerate(corpus_histories()):
         rows_for["c%d" % k] = rows
         hs.append((sid, ops, "c%d" % k))
+    paging_grid(rows_for, hs)
     schemas = schemas or list(SCHEMAS)
     for t in range(max(1, n_hist // 8)):
         for sid in schemas:
